@@ -17,9 +17,48 @@ theorem stackFlow_laws : FlowLaws stackSpec stackFlow (fun l => l) where
   see := by intro a op v h; simp [stackFlow] at h
   init := rfl
 
+theorem stackEmpty_laws : EmptyLaws stackSpec stackFlow (fun l => l) where
+  keep := by
+    intro a op v _ hz _
+    cases op with
+    | push w => simp [stackSpec, stackFlow, List.count_cons]
+    | pop =>
+      cases a with
+      | nil => simp [stackSpec, stackFlow]
+      | cons w l =>
+        have hw : w ≠ 0 := by intro h; subst h; simp at hz
+        simp [stackSpec, stackFlow, List.count_cons, hw]
+  empty := by
+    intro a op h
+    cases op with
+    | push w => simp [stackSpec, stackFlow] at h
+    | pop =>
+      cases a with
+      | nil => exact Or.inl rfl
+      | cons w l =>
+        simp only [stackSpec, stackFlow] at h
+        split at h
+        · rename_i heq; cases heq; exact Or.inr (by simp)
+        · simp at h
+  empty_notake := by
+    intro op r h
+    cases op with
+    | push w => simp [stackFlow] at h
+    | pop =>
+      cases r with
+      | ack => simp [stackFlow] at h
+      | panic => simp [stackFlow] at h
+      | val v =>
+        cases v with
+        | zero => simp [stackFlow]
+        | succ n => simp [stackFlow] at h
+  take_may := by
+    intro op r v h
+    cases op <;> simp [stackFlow] at h ⊢
+
 theorem monC12_of_linearizable (h : List Obs) (hl : Linearizable stackSpec (h.map Obs.toH)) :
     monC12.accepts h = true := by
   rw [monC12, comap_accepts]
-  exact flow_of_linearizable stackSpec stackFlow _ stackFlow_laws _ hl
+  exact container_of_linearizable stackSpec stackFlow _ stackFlow_laws stackEmpty_laws _ hl
 
 end UtilModel.Treiber
